@@ -4,6 +4,8 @@ import (
 	"fmt"
 	"math"
 
+	"go.pennock.tech/tabular/texttable/decoration"
+
 	"go.pennock.tech/tabular"
 )
 
@@ -108,15 +110,27 @@ func diffSnap(a, b []string) string {
 
 // effectiveKey names the output a render step must reproduce: format,
 // effective decoration and renderer options — not the route taken to it.
-func effectiveKey(spec RenderSpec) string {
+func effectiveKey(spec RenderSpec) string { return effectiveKeyOv(spec, false) }
+
+// effectiveKeyOv: once the application has overwritten the built-in name
+// "utf8-heavy", the DEFAULT decoration (package route, bare "texttable") and
+// the decoration selected BY THAT NAME are two different things.
+func effectiveKeyOv(spec RenderSpec, heavyOverwritten bool) string {
 	switch spec.Format {
 	case FmtText:
 		name := DecoName(spec.Deco)
+		byDefault := spec.Via == ViaPkg
 		if spec.Via == ViaPkg {
 			name = "utf8-heavy"
 		}
 		if (spec.Via == ViaAuto || spec.Via == ViaAutoFn) && (name == "custom" || name == "derived") {
 			name = "utf8-heavy"
+		}
+		if (spec.Via == ViaAuto || spec.Via == ViaAutoFn) && name == "utf8-heavy" && spec.Flags&2 != 0 {
+			byDefault = true
+		}
+		if heavyOverwritten && byDefault {
+			return "text/default"
 		}
 		return "text/" + name
 	case FmtHTML:
@@ -206,6 +220,7 @@ func (engC14) Gen(r *Rng, s *Script, idx int, tier string) {
 	autoFocus := r.Chance(1, 5)
 	family := !autoFocus && r.Chance(1, 6)
 	growth := r.Chance(1, 5)
+	overwrite := r.Chance(1, 10)
 	for i := 0; i < nr; i++ {
 		if growth && i > 0 && r.Chance(1, 4) {
 			// the table changes between renders (wrappers kept by the caller stay in use)
@@ -220,7 +235,13 @@ func (engC14) Gen(r *Rng, s *Script, idx int, tier string) {
 				s.Steps = append(s.Steps, Step{Op: "headers", Items: genItems(r, r.Range(1, 5), 1, &ctr)})
 			}
 		}
+		if overwrite && i > 0 && r.Chance(1, 3) {
+			s.Steps = append(s.Steps, Step{Op: "overwriteHeavy", A: r.Intn(16)})
+		}
 		st := genRenderStep(r, faultPct)
+		if overwrite && r.Chance(1, 2) {
+			st.A, st.B, st.C = FmtText, 3, []int{ViaPkg, ViaFresh, ViaAuto, ViaAutoFn, ViaReused}[r.Intn(5)]
+		}
 		if focus >= 0 && r.Chance(1, 2) {
 			st.A = focus
 		}
@@ -264,8 +285,22 @@ func (engC14) Exec(s *Script, keepLog bool) *Result {
 	firsts := map[string]first{}
 	var snap0 []string
 	compared := 0
+	heavyOverwritten := false
+	defer decoration.RegisterDecorationName(decoration.D_UTF8_HEAVY, decoration.UTF8BoxHeavy()) // leave the process as found
 	keys := newHasher()
 	runSteps(w, s.Steps, res, func(i int, st *Step) *Violation {
+		if st.Op == "overwriteHeavy" {
+			// the application re-registers the built-in name "utf8-heavy": renders
+			// BY THAT NAME legitimately change; the default style must not
+			if f, ok := firsts["text/utf8-heavy"]; ok && !heavyOverwritten {
+				firsts["text/default"] = f
+			}
+			delete(firsts, "text/utf8-heavy")
+			heavyOverwritten = true
+			decoration.RegisterDecorationName(decoration.D_UTF8_HEAVY, variantDeco(pick(16, st.A)))
+			w.probe("builtin_utf8_heavy_overwritten")
+			return nil
+		}
 		if st.Op == "decoyRender" {
 			// another table of another shape is rendered in between, in the same
 			// process, through the same decorations: nothing of that may show here
@@ -292,7 +327,7 @@ func (engC14) Exec(s *Script, keepLog bool) *Result {
 		if ro.Panic != nil {
 			return stopRun
 		}
-		key := effectiveKey(ro.Spec)
+		key := effectiveKeyOv(ro.Spec, heavyOverwritten)
 		keys.str(key)
 		fname := fmtNames[ro.Spec.Format]
 		if ro.Faulted {
